@@ -59,6 +59,8 @@ FIXES = [
   "the list of published objects in a CA's repository status was only updated from acknowledged deltas: when the repository applied a delta but the reply was lost (two-instance runs over the faulty network), the next synchronisation found nothing to send, reported success and the status kept the list from before the lost delta; a publisher removed and re-created at the server led to every object being listed twice"),
  ("store a re-scheduled task before removing the entry it replaces", "C09", "pending_rrdp_update_cancelled",
   "(found by the C10 failing-write runs) Queue::schedule_task deleted the pending entry of a task before storing its replacement; when that store failed (injected I/O error at kv store of pending/<ts>-update_rrdp_if_needed while publisher 'bob' sent a delta) the RRDP update already queued for publisher 'Bob's acknowledged delta was gone and the served RRDP snapshot and rsync tree never got that object (profile c10fail, seed 1010000014)"),
+ ("do not reserve memory for as many history records as the request asks for", "C16", "panic",
+  "GET /api/v1/cas/{ca}/history/commands/{rows} passes the number parsed from the path segment to Vec::with_capacity in AggregateStore::command_history_for_records: rows = 18446744073709551615 panics with 'capacity overflow' (a large value that does not overflow aborts on the failing allocation); found by calling KrillManager::ca_history, the call the route handler makes, with extreme criteria (first pointed out by the sub-agent that wrote the second C16 seeded change)"),
 
 ]
 
